@@ -261,7 +261,7 @@ def _search_body(ctx):
     return None
 
 
-def search_chain_shape(ctx, rule):
+def search_chain_shape(ctx, rule, parts=("order", "score", "filter", "comparator", "result", "branch")):
     """ixs -> map(record) -> map(score) -> filter(hit_matches) -> limit_sort(limit, compare_hits) -> map(result) -> collect"""
     sb = _search_body(ctx)
     if sb is None:
@@ -273,37 +273,53 @@ def search_chain_shape(ctx, rule):
     want = ["iter", "map", "map", "filter", "limit_sort_unstable", "map", "collect"]
     norm_names = [("limit_sort_unstable" if n.startswith("limit_sort") else n) for n in names]
     if norm_names == want:
-        ctx.ok(rule, key, sb.where(), "search is ixs -> hit -> score -> filter -> bounded selection -> result", {"stages": names},
-               nontrivial=True)
-    else:
-        ctx.fail(rule, key, sb.where(), "search pipeline changed shape: %s (fail closed)" % names)
+        if "order" in parts:
+            ctx.ok(rule, key, sb.where(), "search is ixs -> hit -> score -> filter -> bounded selection -> result", {"stages": names},
+                   nontrivial=True)
+    elif "order" in parts:
+        ctx.fail(rule, key, sb.where(), "search pipeline changed shape: %s — every record that is a hit on its own must reach the "
+                 "bounded selection (filter before the cut)" % names,
+                 {"witness": "a rejected candidate takes a slot of the top-`limit` list and a genuine hit goes missing"})
         return
+    else:
+        # the stages this property needs are located by name below; a different overall order is not this property's business
+        idx = {n: i for i, n in enumerate(norm_names)}
+        if sorted(norm_names) != sorted(want):
+            ctx.fail(rule, key, sb.where(), "search pipeline lost or gained stages: %s (fail closed)" % names)
+            return
+        stages = [stages[norm_names.index("iter")], stages[norm_names.index("map")],
+                  stages[norm_names.index("map") + 1] if norm_names.count("map") >= 2 else stages[norm_names.index("map")],
+                  stages[norm_names.index("filter")], stages[norm_names.index("limit_sort_unstable")],
+                  stages[len(norm_names) - 1 - norm_names[::-1].index("map")], stages[norm_names.index("collect")]]
     # score closure calls score::score on (query, hit) and returns the hit; filter closure calls hit_matches(query, hit)
     sc = U.closure_body(ctx, stages[2][1][0])
     fl = U.closure_body(ctx, stages[3][1][0])
     key = "score-stage"
     ok = sc is not None and any((t.get("rcn") or "").endswith("score::score") for _, t in sc.calls())
-    if ok:
-        ctx.ok(rule, key, sc.where(), "every candidate is scored with score(query, hit)")
-    else:
-        ctx.fail(rule, key, sb.where(), "the scoring stage no longer calls score(query, hit)")
+    if "score" in parts:
+        if ok:
+            ctx.ok(rule, key, sc.where(), "every candidate is scored with score(query, hit)")
+        else:
+            ctx.fail(rule, key, sb.where(), "the scoring stage no longer calls score(query, hit)")
     key = "filter-stage"
     ok = fl is not None
     if ok:
         e = ctx.sym(fl).local(0)
         ok = e[0] == "call" and e[1].endswith("filter::hit_matches")
-    if ok:
-        ctx.ok(rule, key, fl.where(), "hits are filtered by hit_matches(query, hit) (not negated)", nontrivial=True)
-    else:
-        ctx.fail(rule, key, sb.where(), "the filter stage is not `hit_matches(query, hit)`",
-                 {"witness": "non-matching records are returned / matching ones dropped"})
+    if "filter" in parts:
+        if ok:
+            ctx.ok(rule, key, fl.where(), "hits are filtered by hit_matches(query, hit) (not negated)", nontrivial=True)
+        else:
+            ctx.fail(rule, key, sb.where(), "the filter stage is not `hit_matches(query, hit)`",
+                     {"witness": "non-matching records are returned / matching ones dropped"})
     # final comparator is compare_hits
     cmpe = stages[4][1][1]
     key = "final-comparator"
-    if S.strip_refs(cmpe)[0] == "fn" and S.strip_refs(cmpe)[1].endswith("compare_hits"):
-        ctx.ok(rule, key, sb.where(), "the final selection orders hits with compare_hits")
-    else:
-        ctx.fail(rule, key, sb.where(), "the final selection is ordered by %s" % S.show(cmpe, sb)[:80])
+    if "comparator" in parts:
+        if S.strip_refs(cmpe)[0] == "fn" and S.strip_refs(cmpe)[1].endswith("compare_hits"):
+            ctx.ok(rule, key, sb.where(), "the final selection orders hits with compare_hits")
+        else:
+            ctx.fail(rule, key, sb.where(), "the final selection is ordered by %s" % S.show(cmpe, sb)[:80])
     # result stage: SearchResult { id: hit.id, title: highlight(&hit, dividers) }
     rb = U.closure_body(ctx, stages[5][1][0])
     key = "result-stage"
@@ -316,11 +332,14 @@ def search_chain_shape(ctx, rule):
             te = d.get("title")
             ok = ide[0] == "field" and ide[2] == "id" and S.strip_refs(ide[1]) == ("arg", 2) and \
                 te[0] == "call" and te[1].endswith("highlight::highlight") and S.strip_refs(te[2][0]) == ("arg", 2)
-    if ok:
-        ctx.ok(rule, key, rb.where(), "each result is {id: hit.id, title: highlight(&hit, dividers)} of the same hit", nontrivial=True)
-    else:
-        ctx.fail(rule, key, sb.where(), "results are no longer built as {id: hit.id, title: highlight(&hit, dividers)}",
-                 {"witness": "hit ids do not belong to the shown titles"})
+    if "result" in parts:
+        if ok:
+            ctx.ok(rule, key, rb.where(), "each result is {id: hit.id, title: highlight(&hit, dividers)} of the same hit", nontrivial=True)
+        else:
+            ctx.fail(rule, key, sb.where(), "results are no longer built as {id: hit.id, title: highlight(&hit, dividers)}",
+                     {"witness": "hit ids do not belong to the shown titles"})
+    if "branch" not in parts:
+        return
     # branch: index iff query has words
     key = "index-iff-words"
     ok = False
@@ -632,7 +651,7 @@ def directions(ctx, rule, comps):
                      {"witness": "titles 'u' and 'u x' with equal rating, query 'u'"})
 
 
-def rating_confinement(ctx, rule):
+def rating_confinement(ctx, rule, injective=True):
     facts = ctx.facts
     roots = [b.id for b in facts.fns() if b.id.endswith("search::score::score")]
     reach = ctx.cg.reachable(roots)
@@ -672,7 +691,7 @@ def rating_confinement(ctx, rule):
                  {"witness": "a rating large enough beats a better match"})
     # score_rating_up returns the rating unscaled (cast only)
     fb = facts.one("search::score::score_rating_up")
-    if fb is not None:
+    if fb is not None and injective:
         e = ctx.sym(fb).local(0)
         x = e
         while x[0] == "cast":
@@ -959,3 +978,36 @@ def component_formulas(ctx, rule):
         else:
             ctx.fail(rule, key, fb.where(), "score_offset_down is no longer -(min over matches of the word offset)",
                      {"witness": "'u x' no longer outranks 'x u' for the query 'u'"})
+
+
+def rating_monotone(ctx, rule):
+    """C08 needs: for ratings in [0, 2^31) a higher rating gives a strictly higher component.  Accepted shapes of
+    score_rating_up: the rating itself (cast), or min(rating, C) with C >= 2^31 - 1."""
+    fb = ctx.facts.one("search::score::score_rating_up")
+    if not ctx.require(rule, "score_rating_up", fb):
+        return
+    e = ctx.sym(fb).local(0)
+    x = e
+    while x[0] == "cast":
+        x = x[2]
+    key = "rating-monotone"
+    ok = False
+    p = U.field_path(x)
+    if p and p[2] == ["rating"]:
+        ok = True
+    elif x[0] == "call" and x[1].endswith("cmp::min"):
+        a, b = x[2]
+        def unc(z):
+            while z[0] == "cast":
+                z = z[2]
+            return z
+        ca = unc(a) if U.is_const(unc(a)) else (unc(b) if U.is_const(unc(b)) else None)
+        other = b if (ca is not None and U.is_const(unc(a))) else a
+        po = U.field_path(other)
+        if ca is not None and po and po[2] == ["rating"] and S.const_value(ca) is not None and S.const_value(ca) >= 2 ** 31 - 1:
+            ok = True
+    if ok:
+        ctx.ok(rule, key, fb.where(), "the rating component is strictly increasing in the rating on [0, 2^31)", nontrivial=True)
+    else:
+        ctx.fail(rule, key, fb.where(), "the rating component is not the rating itself (or a clamp above 2^31-1): %s" % S.show(e, fb),
+                 {"witness": "among identical titles a higher rating does not come first"})
